@@ -25,12 +25,14 @@ FOREIGN = '''<div id="w" class="c"><svg id="sv" xmlns:xlink="http://www.w3.org/1
 STRUCT = '''<div id="r" class="a b"><ul id="u"><li id="l1" class="a">one</li><li id="l2">two<!--c--></li><li id="l3" class="a b">three</li><li id="l4"></li></ul><table id="t"><tr id="tr1"><td id="c1"></td><td id="c2"></td><td id="c3">x</td></tr></table>
 <div id="n1"><div id="n2" class="b"><span id="s1" title="T v">a</span><span id="s2" title="t-v">b</span><em id="e1">c</em></div></div><p id="q1">alpha beta</p><p id="q2" class="a">beta</p></div>'''
 
-MARKUPS = {'forms': FORMS, 'links': LINKS, 'iframe': IFRAME, 'foreign': FOREIGN, 'struct': STRUCT}
+IFRAME_META = '''<div id="o"><p id="before" class="c">outer first</p><form id="of"><input id="ob" type="submit"><input id="oc" type="checkbox" checked><iframe id="fr"><html><head></head><body><form id="if"><input id="ib" type="submit"></form><p id="inner" class="c">inner text</p><span id="isp"><em id="iem">x</em></span></body></html></iframe></form><p id="after" class="c">outer last</p></div>'''
+
+MARKUPS = {'forms': FORMS, 'links': LINKS, 'iframe': IFRAME, 'foreign': FOREIGN, 'struct': STRUCT, 'iframe-meta': IFRAME_META}
 HEAD = '<head><meta http-equiv="content-language" content="en"><title>t</title></head>'
 
 
 def html_doc(name):
-    return '<!DOCTYPE html><html>' + (HEAD if name in ('links', 'struct') else '<head></head>') + '<body>' + MARKUPS[name] + '</body></html>'
+    return '<!DOCTYPE html><html>' + (HEAD if name in ('links', 'struct', 'iframe-meta') else '<head></head>') + '<body>' + MARKUPS[name] + '</body></html>'
 
 
 def xhtml_doc(name):
